@@ -466,8 +466,16 @@ def _get_comp_cls_media(comp_cls: Type["Component"]) -> Any:
             #
             # However, the `__add__` converts our `media_cls` to Django's Media class.
             # So we also have to convert it back to `media_cls`.
+            #
+            # NOTE: We keep the individual lists (instead of flattening them with `._js` / `._css`),
+            #       so that the final order is computed from the lists as they were declared.
+            #       Flattening after each base adds an artificial order between unrelated files,
+            #       which may conflict with the list of the next base (`MediaOrderConflictWarning`)
+            #       and then the declared order is lost.
             merged_media = media + base_media
-            media = media_cls(js=merged_media._js, css=merged_media._css)
+            media = media_cls()
+            media._js_lists = merged_media._js_lists
+            media._css_lists = merged_media._css_lists
 
         # Lastly, cache the merged-up Media, so we don't have to search further up the MRO the next time
         media_cache[curr_cls] = media
